@@ -2,6 +2,7 @@
 From Coq Require Import List Arith Lia Bool Permutation ZArith.
 From Mpv Require Import NumOps GenChunk Chunk ChunkPartition GenProto Core ProtoSpec CoreCons CoreResult.
 From Mpv Require SortRecovers.
+From Mpv Require Import GenStruct Reorder ReorderProofs.
 Import ListNotations.
 Close Scope Z_scope.
 
@@ -48,3 +49,11 @@ Print Assumptions C01_chunks_cover_input.
 Definition C01_map_sorted_is_input_order := SortRecovers.sort_recovers.
 Check C01_map_sorted_is_input_order.
 Print Assumptions C01_map_sorted_is_input_order.
+
+(* (5) lazy ordered `imap`: the reorder buffer (loop read off pool.imap) yields, for EVERY arrival order of the n
+   index-tagged results, the values in input order *)
+Theorem C01_imap_yields_in_input_order :
+  forall (A : Type) (f : nat -> A) (n : nat) (arrived : list nat),
+  Permutation arrived (seq 0 n) -> imap_yields A (map (fun i => (i, f i)) arrived) = map f (seq 0 n).
+Proof. exact imap_yields_in_input_order. Qed.
+Print Assumptions C01_imap_yields_in_input_order.
